@@ -27,7 +27,7 @@ from prng import Rng
 ID = "C15"
 LEAN_MODULE = "RpycModel.Props.C15"
 NAMESPACE = "Rpyc.Props.C15"
-GEN = []
+GEN = ["Async.lean"]
 DRIVERS = ["drv_async"]
 TRUSTED = [
     "modelled, not verified: the virtual clock and the scripted channel stand in for time.time() and select(); "
@@ -170,6 +170,7 @@ class Sim:
     def close(self):
         import rpyc.lib
         rpyc.lib.time = self.saved_time
+        self.conn._closed = True       # nothing to tell a scripted peer when the connection object is collected
 
     # -- hooks called by the channel
     def _sleeper(self, d):
@@ -579,7 +580,8 @@ def correspondence(ctx):
               "callback log).")
     depth_main = ctx.budget(6, 7)
     depth_other = ctx.budget(5, 6)
-    lines, impl, meta = [], [], []
+    depth_top = ctx.budget(6, 8)               # reply dispatched now, value
+    lines, impl = [], []
     kinds = {}
     r = Rng(ctx.seed).fork("c15")
     n_recheck = ctx.budget(600, 6000)          # per batch
@@ -587,7 +589,10 @@ def correspondence(ctx):
     def add(t0, toks, got):
         lines.append("async run %d %s" % (t0, " ".join(toks)))
         impl.append(got)
-        meta.append((t0, tuple(toks)))
+
+    def meta_of(line):
+        parts = line.split(" ")
+        return int(parts[2]), parts[3:]
 
     def flush(recheck):
         """pipe what has accumulated through the model, compare, forget (bounds memory in the thorough tier)"""
@@ -595,7 +600,7 @@ def correspondence(ctx):
             # prefix sharing is a harness shortcut: re-run a sample of the leaves from scratch, insist on the same trace
             for _ in range(n_recheck):
                 i = r.below(len(lines))
-                t0, toks = meta[i]
+                t0, toks = meta_of(lines[i])
                 fresh = run_impl(t0, list(toks))
                 c.count("enumerated:recheck-from-scratch")
                 if fresh != impl[i]:
@@ -603,8 +608,9 @@ def correspondence(ctx):
                                                 model="(prefix-shared run) " + impl[i],
                                                 note="harness: prefix-shared run differs from a fresh run"))
         outs = run_driver(lines, exe="drv_async")
-        for (t0, toks), want, got in zip(meta, impl, outs):
+        for line, want, got in zip(lines, impl, outs):
             c.evaluations += 1
+            t0, toks = meta_of(line)
             if got != want:
                 if len(c.disagreements) < 200:
                     c.disagreements.append(dict(case="%d %s" % (t0, " ".join(toks)), impl=want, model=got))
@@ -624,14 +630,14 @@ def correspondence(ctx):
                 c.count("outcome:reply-not-accepted")
             if len(c.samples) < 12 and c.evaluations % 40009 == 7:
                 c.samples.append(dict(case="%d %s" % (t0, " ".join(toks)), outcome=want))
-        del lines[:], impl[:], meta[:]
+        del lines[:], impl[:]
 
     t_start = _walltime.time()
     n_enum = 0
     try:
         for tau in TIMEOUTS:
             for variant in ("arrive", "deliver", "arrive-exc", "deliver-exc"):
-                depth = depth_main if variant in ("arrive", "deliver") else depth_other
+                depth = depth_top if variant == "arrive" else depth_main if variant == "deliver" else depth_other
                 sim = Sim(0)
                 try:
                     head = "X" + tau_tok(tau)
@@ -684,9 +690,9 @@ def correspondence(ctx):
                 c.samples.append(dict(case="simnet %r" % (sc,), outcome=" ".join(want)))
     for k, v in kinds.items():
         c.count("observation:" + k, v)
-    c.extra["exhaustive_orders"] = ("all orders of the 9-symbol multiset of length %d (reply dispatched now / put into the "
-                                    "channel now, value) / %d (the same with an exception), 5 timeouts: %d sequences"
-                                    % (depth_main, depth_other, n_enum))
+    c.extra["exhaustive_orders"] = ("all orders of the 9-symbol multiset of length %d (reply dispatched now) / %d (reply put "
+                                    "into the channel now) / %d (the same two with an exception), 5 timeouts: %d sequences"
+                                    % (depth_top, depth_main, depth_other, n_enum))
     c.exhaustive = False
     return c
 
